@@ -69,11 +69,17 @@ pub struct P {
     /// before the transaction(s) under test the owner re-points the engine at a freshly deployed
     /// fee pool (the old one is no longer a permitted recipient)
     pub pool_switch: bool,
+    /// before the transaction(s) under test the owner re-points the vAMM's margin_engine setting at
+    /// another account and back again
+    pub engine_switch: bool,
+    /// a pool priced at 0.1 (reserves 100 : 1000, oracle 0.1): base amounts are ten times the quote
+    /// amounts, so quote-to-base round trips lose raw units that a pool priced at 10 hides
+    pub cheap: bool,
 }
 
 impl P {
     pub fn new(prop: &'static str, side: Side, seed: u64) -> P {
-        P { prop, native: false, dec: 9, fees: false, side, wide: false, seed, partial_sym: false, full_prefix: false, concrete_prefix: false, sym_lev: false, sym_lim: false, sym_ratios: false, bystanders: prop == "C10", sym_oracle: false, sym_counter: false, fault: None, real_feed: false, with_trend: false, attached: false, sym_funds: false, paused: false, vamm_ins_outsider: false, fee_seed: 0, caps_lowered: false, reopen: false, bad_admin: false, feed_switch: false, pool_switch: false }
+        P { prop, native: false, dec: 9, fees: false, side, wide: false, seed, partial_sym: false, full_prefix: false, concrete_prefix: false, sym_lev: false, sym_lim: false, sym_ratios: false, bystanders: prop == "C10", sym_oracle: false, sym_counter: false, fault: None, real_feed: false, with_trend: false, attached: false, sym_funds: false, paused: false, vamm_ins_outsider: false, fee_seed: 0, caps_lowered: false, reopen: false, bad_admin: false, feed_switch: false, pool_switch: false, engine_switch: false, cheap: false }
     }
     pub fn native(mut self) -> P {
         self.native = true;
@@ -139,6 +145,11 @@ impl P {
         }
         if self.partial_sym {
             cfg.partial_ratio = ratio("partial_ratio", d, d / 4);
+        }
+        if self.cheap {
+            cfg.x0 = Uint128::new(100 * d);
+            cfg.y0 = Uint128::new(1_000 * d);
+            cfg.oracle_price = Uint128::new(d / 10);
         }
         if self.sym_ratios {
             cfg.init_ratio = ratio("init_ratio", d, d / 20);
@@ -229,6 +240,14 @@ impl P {
         self.pool_switch = true;
         self
     }
+    pub fn engine_switch(mut self) -> P {
+        self.engine_switch = true;
+        self
+    }
+    pub fn cheap(mut self) -> P {
+        self.cheap = true;
+        self
+    }
     pub fn bad_admin(mut self) -> P {
         self.bad_admin = true;
         self
@@ -236,7 +255,7 @@ impl P {
     /// owner actions between the prefix and the transaction(s) under test (`reopen`, `bad_admin`);
     /// none of them is judged by itself
     pub fn interlude(&self, r: &mut Run) {
-        if !self.reopen && !self.bad_admin && !self.feed_switch && !self.pool_switch {
+        if !self.reopen && !self.bad_admin && !self.feed_switch && !self.pool_switch && !self.engine_switch {
             return;
         }
         let was_full = symrt::is_full();
@@ -249,6 +268,15 @@ impl P {
         }
         if self.pool_switch {
             r.w.switch_fee_pool();
+        }
+        if self.engine_switch {
+            let e = r.w.engine.to_string();
+            for vi in 0..r.w.vamms.len() {
+                for to in [EVE.to_string(), e.clone()] {
+                    let m = margined_perp::margined_vamm::ExecuteMsg::UpdateConfig { base_asset_holding_cap: None, open_interest_notional_cap: None, toll_ratio: None, spread_ratio: None, fluctuation_limit_ratio: None, margin_engine: Some(to), insurance_fund: None, pricefeed: None, spot_price_twap_interval: None };
+                    r.w.vamm_exec(OWNER, vi, &m);
+                }
+            }
         }
         if self.feed_switch {
             if let Ok(spot) = r.w.spot_price(0) {
@@ -319,6 +347,8 @@ impl P {
             + if self.bad_admin { ".bad-admin" } else { "" }
             + if self.feed_switch { ".feed-switch" } else { "" }
             + if self.pool_switch { ".pool-switch" } else { "" }
+            + if self.engine_switch { ".engine-switch" } else { "" }
+            + if self.cheap { ".cheap-pool" } else { "" }
     }
     fn prefix_mode(&self) {
         symrt::set_full(self.full_prefix);
@@ -955,13 +985,16 @@ pub fn t_pclose(p: P, bob_same: bool) -> impl Fn() {
         let mut r = p.run_cfg(cfg);
         p.prefix_mode();
         let l = Uint128::new(2 * d);
-        let m1 = Uint128::new((30 + (p.seed % 9) as u128) * d);
+        // (a tenth of the amounts on the cheap pool, plus an odd number of raw units)
+        let sc = if p.cheap { 10 } else { 1 };
+        let odd = if p.cheap { 7 + (p.seed % 90) as u128 } else { 0 };
+        let m1 = Uint128::new((30 + (p.seed % 9) as u128) * d / sc + odd);
         let f = funds_for(&r, &p, m1, l);
         if !r.step(Op::Open { who: ALICE, side: p.side.clone(), margin: m1, lev: l, limit: Uint128::zero(), funds: f }).tx.ok {
             return;
         }
         r.w.next_block(15);
-        let m2 = Uint128::new((10 + (p.seed % 5) as u128) * d);
+        let m2 = Uint128::new((10 + (p.seed % 5) as u128) * d / sc + odd / 2);
         let bs = if bob_same { p.side.clone() } else { opp(&p.side) };
         let f = funds_for(&r, &p, m2, l);
         if !r.step(Op::Open { who: BOB, side: bs, margin: m2, lev: l, limit: Uint128::zero(), funds: f }).tx.ok {
